@@ -392,7 +392,9 @@ func runFaultJob(c *Ctl, job *Job, idx int, res *RunResult) {
 		t.Allow = c.Ch.Bool(1, 4, "allow")
 		for _, g := range w.AllGraphs() {
 			for _, s := range g.Stages {
-				s.Dir = ""
+				if strings.Contains(s.Dir, "{{") {
+					s.Dir = "/vs/" + s.Name // (a condition cannot be combined with a dir templated over task variables)
+				}
 				if t.Cond {
 					w.Plans[execID(t.Name, "cond", 0, "")+"@"+s.Name] = &ExecPlan{Exit: []int{0, 0, 1, 3}[c.Ch.Choose(4, "cond-exit")]}
 				}
